@@ -1,6 +1,7 @@
 package main
 
 import (
+	"sync/atomic"
 	"context"
 	"errors"
 	"fmt"
@@ -276,6 +277,8 @@ func genRec(cfg Config, emit func(string, bool, []string)) {
 					}
 				}
 				add("multi %s", strings.Join(sp, ","))
+			case x < 5 && refresh == "":
+				add("waiter %d", r.IntN(4))
 			case x < 28:
 				add("put %d %d", id, r.IntN(100))
 			case x < 38:
@@ -363,6 +366,9 @@ type recCall struct {
 }
 
 type recExec struct {
+	waiters      []*recWaiter
+	waiterCancel context.CancelFunc
+	waiterCtx    context.Context
 	tinyNs   int
 	failOnce map[uint64]bool
 	round   int
@@ -465,12 +471,24 @@ type recRef struct {
 	rev   uint64 // revision of the user's write
 }
 
+// recWaiter: a goroutine inside WaitUntilReconciled(ctx, target)
+type recWaiter struct {
+	target   uint64
+	returned atomic.Bool
+	rev, lw  uint64
+	err      error
+}
+
 type recTarget struct {
 	present bool
 	data    int
 }
 
 func (e *recExec) Close() {
+	if e.waiterCancel != nil {
+		e.waiterCancel()
+		synctest.Wait()
+	}
 	if e.sideIter != nil {
 		// closed here, inside the bubble: the runtime cleanup of an unreachable iterator would run outside
 		e.sideIter.Close()
@@ -894,7 +912,7 @@ func (e *recExec) state() string {
 	if lw != 0 {
 		lwc = "+"
 	}
-	return fmt.Sprintf("calls=[%s] objs=[%s] lw=%s", strings.Join(cs, " "), strings.Join(objs, " "), lwc)
+	return fmt.Sprintf("calls=[%s] objs=[%s] lw=%s%s", strings.Join(cs, " "), strings.Join(objs, " "), lwc, e.waiterStates())
 }
 
 // settleOracle: the clauses of C15 / C16 that hold at every quiet point
@@ -1253,6 +1271,20 @@ func (e *recExec) Do(o *Out, f []string) string {
 	case "advance":
 		ms, _ := strconv.Atoi(f[1])
 		time.Sleep(time.Duration(ms) * time.Millisecond)
+	case "waiter":
+		// a goroutine calls WaitUntilReconciled(ctx, table revision now + k) and stays in it
+		k, _ := strconv.Atoi(f[1])
+		if e.waiterCtx == nil {
+			e.waiterCtx, e.waiterCancel = context.WithCancel(context.Background())
+		}
+		w := &recWaiter{target: uint64(e.table.Revision(e.db.ReadTxn())) + uint64(k)}
+		e.waiters = append(e.waiters, w)
+		ctx := e.waiterCtx
+		go func() {
+			rev, lw, err := e.rec.WaitUntilReconciled(ctx, statedb.Revision(w.target))
+			w.rev, w.lw, w.err = uint64(rev), uint64(lw), err
+			w.returned.Store(true)
+		}()
 	case "obs":
 	case "final":
 		synctest.Wait()
@@ -1277,6 +1309,7 @@ func (e *recExec) Do(o *Out, f []string) string {
 	}
 	synctest.Wait()
 	e.settleOracle(o)
+	e.waiterOracle(o)
 	if e.oracleOnly {
 		e.mu.Lock()
 		e.printed = len(e.calls)
@@ -1284,6 +1317,42 @@ func (e *recExec) Do(o *Out, f []string) string {
 		return "-"
 	}
 	return e.state()
+}
+
+// waiterOracle (C16): a call of WaitUntilReconciled(ctx, target) has returned exactly when the
+// published progress revision has reached its target — not earlier, and it is not left asleep;
+// what it returned is at least the target, without an error
+func (e *recExec) waiterOracle(o *Out) {
+	if len(e.waiters) == 0 || e.rec == nil {
+		return
+	}
+	ctx, cancel := context.WithCancel(context.Background())
+	cur, _, _ := e.rec.WaitUntilReconciled(ctx, 0)
+	cancel()
+	for _, w := range e.waiters {
+		if w.returned.Load() {
+			if w.err != nil || w.rev < w.target {
+				o.Fail("C16", "wait-returned-before-the-target", nil, fmt.Sprintf("WaitUntilReconciled(ctx, %d) returned (%d, %d, %v)", w.target, w.rev, w.lw, w.err))
+			}
+		} else if uint64(cur) >= w.target {
+			o.Fail("C16", "waiter-not-woken", nil, fmt.Sprintf("WaitUntilReconciled(ctx, %d) is still waiting although the published revision is %d", w.target, cur))
+		}
+	}
+}
+
+func (e *recExec) waiterStates() string {
+	if len(e.waiters) == 0 {
+		return ""
+	}
+	var parts []string
+	for _, w := range e.waiters {
+		if w.returned.Load() {
+			parts = append(parts, "ret")
+		} else {
+			parts = append(parts, "wait")
+		}
+	}
+	return " waiters=" + strings.Join(parts, ",")
 }
 
 // finalOracle: C14 — failures stopped, table quiet for more than two maximal
